@@ -237,7 +237,7 @@ def run(chk, gate, status):
             'exhaustive_bound': 'all 10 prefixes x 5 quantity base units x literal stream; ' + ('all 40 x 40' if full else '40 x 10 sampled') +
                                 ' numerator/denominator unit pairs; all prefixes with M and m; three percent forms',
             'disagreements_checked': ndis, 'oracle_failures': nfail, 'samples': samples, 'generator_distribution': dist,
-            'translator_status': status.get('UnitsGen')}
+            'translator_status': status.get('UnitsGen'), 'symbolic_extraction_status': status.get('UnitsSym'), 'tie_used': (status.get('tie') or {}).get('UnitsTie')}
 
 
 def equivalents():
